@@ -440,7 +440,54 @@ def r19_8(ctx):
                'under `self.returncode is None`')
 
 
+
+def r19_9(ctx):
+    ctx.rule('R19.9', 'looking at a child never waits for another look: poll() and wait() of the launchers take no lock '
+                      'around the (possibly untimed) waitpid -- a timed join in one thread must not queue behind an '
+                      'untimed one in another', floor=2)
+    m = ctx.model
+    for cq in ('popen_fork:Popen', 'popen_forkserver:Popen', 'popen_spawn_posix:Popen'):
+        ci = m.classes.get(cq)
+        if ci is None:
+            continue
+        for name in ('poll', 'wait'):
+            fi = ci.methods.get(name)
+            if fi is None:
+                continue
+            deco = [ast.unparse(d) for d in fi.node.decorator_list]
+            locked = [w for w in walk_own(fi.node) if isinstance(w, ast.With) and
+                      any('lock' in ast.unparse(i.context_expr).lower() for i in w.items)]
+            acq = [c for c in walk_own(fi.node) if isinstance(c, ast.Call) and isinstance(c.func, ast.Attribute) and
+                   c.func.attr == 'acquire']
+            ok = not deco and not locked and not acq
+            ctx.ob('R19.9', '%s.%s:not-serialised' % (cq.split(':')[0], name), ok, fi, None,
+                   'plain method, no lock held while waiting' if ok else
+                   '%s.%s runs under %s: a join(timeout) blocks for as long as another thread\'s untimed join' % (
+                       ci.name, name, ('decorator ' + deco[0]) if deco else 'a lock'))
+
+
+def r19_10(ctx):
+    ctx.rule('R19.10', 'the fork-server launcher takes the pid off the status pipe at launch, so that the only other '
+                       'thing ever read from it is the exit status: the pipe has exactly these two readers', floor=2)
+    m = ctx.model
+    ci = m.cls('popen_forkserver:Popen')
+    la = ci.methods.get('_launch')
+    q.need(la is not None, 'popen_forkserver.Popen._launch not found')
+    pid = [dn for (dn, t, v) in q.assigns(la, 'self.pid') if isinstance(v, ast.Call) and (la.callee(v) or '').endswith('read_unsigned')]
+    ok, w = la.cfg.must_pass([la.cfg.entry], [la.cfg.exit], pid, skip_labels=('x',)) if pid else (False, None)
+    ctx.ob('R19.10', '_launch:pid-read-at-launch', ok, la, pid[0] if pid else None,
+           'self.pid = forkserver.read_unsigned(self.sentinel) on every normal path of _launch', path=w)
+    readers = sorted(name for name, fi in ci.methods.items()
+                     if any(isinstance(c, ast.Call) and (fi.callee(c) or '').endswith('read_unsigned') for c in walk_own(fi.node)))
+    ctx.ob('R19.10', 'status-pipe-readers', readers == ['_launch', 'poll'], ci, None,
+           'read_unsigned(self.sentinel) in %s' % readers if readers == ['_launch', 'poll'] else
+           'the status pipe is read in %s: whoever reads first takes the pid, and poll() takes the next word for the '
+           'exit status' % readers)
+
+
 def run(ctx):
+    r19_9(ctx)
+    r19_10(ctx)
     r19_8(ctx)
     r19_7(ctx)
     r19_5(ctx)
@@ -454,6 +501,8 @@ def run(ctx):
 _PF = 'billiard/popen_fork.py'
 _PR = 'billiard/process.py'
 MUTANTS = [
+    ('poll-and-wait-serialised-by-a-lock', _PF, "    def wait(self, timeout=None):\n        if self.returncode is None:\n", "    def wait(self, timeout=None):\n      with self._wait_lock:\n        if self.returncode is None:\n", 'R19.9'),
+    ('forkserver-pid-read-lazily', 'billiard/popen_forkserver.py', "        self.pid = forkserver.read_unsigned(self.sentinel)\n\n    def poll(", "\n    def _read_pid(self):\n        self.pid = forkserver.read_unsigned(self.sentinel)\n        return self.pid\n\n    def poll(", 'R19.10'),
     ('forkserver-poll-tests-the-code-by-truth', 'billiard/popen_forkserver.py', "        if self.returncode is None:\n            from .connection import wait", "        if not self.returncode:\n            from .connection import wait", 'R19.8'),
     ('final-flush-can-raise', _PR, "            _maybe_flush(sys.stdout)\n            _maybe_flush(sys.stderr)\n\n        return exitcode\n",
      "            util._flush_std_streams()\n\n        return exitcode\n", 'R19.1'),
